@@ -361,6 +361,33 @@ static void rt_eval(uint64_t idx, void *ctx) {
         check_calendar(ctor[k].dt, t);
     }
 
+    /* fractions that round to the next millisecond - up to a whole second: the instant is t*1000 + round(fraction*1000) in
+     * every epoch view (how the object splits it into seconds and milliseconds is its own business, so only the public
+     * views are compared; added after a seeded change that dropped the carry into the seconds) */
+    {
+        static const double fr_tab[6] = {0.9996, 0.9999, 0.99951, 0.4996, 0.0004, 0.99999999};
+        static const unsigned fr_ms[6] = {1000, 1000, 1000, 500, 0, 1000};
+        for (int k = 0; k < 6; ++k) {
+            struct aws_date_time d4;
+            memset(&d4, 0, sizeof(d4));
+            aws_date_time_init_epoch_secs(&d4, (double)t + fr_tab[k]);
+            uint64_t want = (uint64_t)t * 1000u + fr_ms[k];
+            g_case.mode = 0;
+            g_case.how = "init_epoch_secs(fraction that rounds)";
+            g_case.t = t;
+            g_case.ms = fr_ms[k];
+            V_COUNT("evaluations", 1);
+            V_COUNT("nontrivial", 1);
+            uint64_t ms4 = aws_date_time_as_millis(&d4);
+            double es4 = aws_date_time_as_epoch_secs(&d4);
+            CHECK(ms4 == want, "init-instant:rounded-fraction", "init_epoch_secs(%" PRId64 " + %.8f): as_millis=%" PRIu64 ", the instant to the millisecond is %" PRIu64, t, fr_tab[k], ms4, want);
+            CHECK((uint64_t)llround(es4 * 1000.0) == ms4, "epoch-views:secs-vs-millis", "init_epoch_secs(%" PRId64 " + %.8f): as_epoch_secs=%.6f as_millis=%" PRIu64, t, fr_tab[k], es4, ms4);
+            if (ms4 <= UINT64_MAX / 1000000u)
+                CHECK(aws_date_time_as_nanos(&d4) == ms4 * 1000000u, "epoch-views:nanos-vs-millis", "init_epoch_secs(%" PRId64 " + %.8f): as_nanos=%" PRIu64 " as_millis=%" PRIu64, t, fr_tab[k],
+                      aws_date_time_as_nanos(&d4), ms4);
+        }
+    }
+
     civil_t c = civil_from_secs(t);
     for (int kind = 0; kind < NKINDS; ++kind) {
         enum aws_date_format f = kind_fmt[kind];
@@ -725,7 +752,29 @@ static void sb_eval(uint64_t idx, void *ctx) {
     char want[64];
     size_t wn = canonical_text(kind, &c, want, sizeof(want));
     size_t cap = start + freeb;
-    uint8_t *out = malloc(cap ? cap : 1); /* exact size: the sanitizer sees any byte written past the capacity */
+    /* run A: a block of exactly the capacity - the sanitizer sees any byte the LIBRARY writes past it; run B (below): 16
+     * canary bytes behind the capacity - the sanitizer does not intercept strftime(), so what libc writes on the
+     * library's behalf is only visible as a changed canary (added after a seeded change that passed capacity+1 to it) */
+    {
+        uint8_t *wide = malloc(cap + 16);
+        memset(wide, 0xC7, cap + 16);
+        struct aws_byte_buf wb = aws_byte_buf_from_empty_array(wide, cap);
+        if (cap == 0) wb.buffer = wide, wb.capacity = 0;
+        wb.len = start;
+        int rcw = kind_short[kind] ? aws_date_time_to_utc_time_short_str(&d, kind_fmt[kind], &wb) : aws_date_time_to_utc_time_str(&d, kind_fmt[kind], &wb);
+        size_t first_bad = 0;
+        int bad = 0;
+        for (size_t i = 0; i < 16 && !bad; ++i)
+            if (wide[cap + i] != 0xC7) bad = 1, first_bad = i;
+        g_case.mode = 0;
+        g_case.how = "format into a short buffer";
+        g_case.t = t;
+        g_case.ms = 0;
+        CHECK(!bad, CL("shortbuf-writes-past-capacity:%s", kind_name[kind]), "%s of %" PRId64 " (%zu bytes) into %zu free bytes behind %zu (%s): byte %zu behind the capacity was overwritten with 0x%02x",
+              kind_name[kind], t, wn, freeb, start, rcw ? "refused" : "success", first_bad, wide[cap + first_bad]);
+        free(wide);
+    }
+    uint8_t *out = malloc(cap ? cap : 1);
     memset(out, 0xC7, cap ? cap : 1);
     struct aws_byte_buf ob = aws_byte_buf_from_empty_array(out, cap);
     ob.len = start;
